@@ -337,6 +337,22 @@ def run_case(case, ctx):
             viol("mode-product", cls, "factorised mode product != mode product of the dense reconstruction (got shape %s want %s, err/bound %.3g)" % (np.shape(after), want.shape, why), {"desc": desc, "got": after, "want": want})
         elif rep_shape is not None and rep_shape != tuple(want.shape):
             viol("reported-shape", cls, "result reports shape %s but represents a tensor of shape %s" % (rep_shape, want.shape), desc)
+        elif wrapper and not copy and not vec and okind == "same":
+            # history: a second size-changing product along the same mode, applied to the object the first one worked on in place
+            ctx.count("clause/second-inplace-product")
+            M2 = gen.arr(rs, [int(rs.randint(1, 6)), M.shape[0]], dt)
+            want2, _, _ = ref.mode_dot(want, M2, mode)
+            wabs2, _, _ = ref.mode_dot(wabs, np.abs(M2), mode)
+            try:
+                out2 = obj.mode_dot(M2, mode_arg, copy=False) if via_method else fn(obj, M2, mode_arg, copy=False)
+                after2 = ref.cp_dense(out2[0], [np.asarray(f) for f in out2[1]])[0] if g == "cp_mode_dot" else ref.tucker_dense(np.asarray(out2[0]), [np.asarray(f) for f in out2[1]])[0]
+            except Exception as e:  # noqa
+                viol("second-inplace-product-raises-%s" % type(e).__name__, cls, "a second in-place mode product (%s -> %s -> %s rows) on the same object raised %s: %s" % (
+                    shp[mode], M.shape[0], M2.shape[0], type(e).__name__, str(e)[:150]), desc)
+                return
+            ok2, why2 = tol.formula_close(after2, want2, wabs2, eps, 8 * (shp[mode] + M.shape[0] + inner + 8))
+            if not ok2:
+                viol("mode-product", cls + "+second-inplace", "second in-place mode product on the same object is wrong (err/bound %.3g, shapes %s vs %s)" % (why2, np.shape(after2), want2.shape), desc)
         ctx.nontriv(desc)
         ctx.sample({"gen": g, "desc": desc}, 2)
     elif g == "pad_tt_rank":
